@@ -677,7 +677,12 @@ def race_once(rharness, ops, goroutines, iterations, gomaxprocs=None):
     env = dict(os.environ, GORACE='exitcode=66 halt_on_error=1')
     if gomaxprocs:
         env['VERIF_GOMAXPROCS'] = str(gomaxprocs)
-    p = subprocess.run([rharness, 'race', str(goroutines), str(iterations)], input=ops, capture_output=True, text=True, env=env)
+    try:
+        p = subprocess.run([rharness, 'race', str(goroutines), str(iterations)], input=ops, capture_output=True, text=True,
+                           env=env, timeout=int(os.environ.get('VERIF_RACE_TIMEOUT', '240')))
+    except subprocess.TimeoutExpired:
+        # an operation that does not return is C19's / C05's business, not a data race: inconclusive here
+        return None
     if p.returncode == 66 or 'DATA RACE' in p.stderr:
         lines = [l for l in p.stderr.split('\n') if l.strip()]
         where = [l.strip() for l in lines if 'gregoryv/mq' in l or '/repo/' in l][:4]
